@@ -52,6 +52,8 @@ class time_limit:
         self.seconds = seconds if _timeouts_seen[0] < 3 else 3
 
     def _fire(self, signum, frame):
+        if not self.armed:
+            return          # a late tick of the repeating timer while the harness is already cleaning up
         _timeouts_seen[0] += 1
         raise ImplTimeout('no result after %d s' % self.seconds)
 
@@ -59,16 +61,20 @@ class time_limit:
         import signal
         import threading
         self.active = threading.current_thread() is threading.main_thread()
+        self.armed = False
         if _timeouts_seen[0] >= 6:
             self.active = False
             raise ImplTimeout('not tried: six earlier calls in this process did not return')
+        self.armed = False
         if self.active:
             self.old = signal.signal(signal.SIGALRM, self._fire)
             signal.setitimer(signal.ITIMER_REAL, self.seconds, 1.0)
+            self.armed = True
         return self
 
     def __exit__(self, *exc):
         import signal
+        self.armed = False
         if self.active:
             signal.setitimer(signal.ITIMER_REAL, 0)
             signal.signal(signal.SIGALRM, self.old)
